@@ -209,14 +209,14 @@ def calculate_individual_shrinkage(
     diag = model.random_variables.etas.covariance_matrix.diagonal()
     param_names = [s.name for s in diag]
 
-    diag_ests = pe[param_names]
+    diag_ests = pd.Series(pe[param_names].values, index=model.random_variables.etas.names)
 
     def fn(row, ests):
         names = row[0].index
-        ser = pd.Series(np.diag(row[0].values) / ests, index=names)
+        ser = pd.Series(np.diag(row[0].values) / ests[names].values, index=names)
         return ser
 
-    ish = pd.DataFrame(cov).apply(fn, axis=1, ests=diag_ests.values)
+    ish = pd.DataFrame(cov).apply(fn, axis=1, ests=diag_ests)
     return ish
 
 
